@@ -32,6 +32,10 @@ type exprTr struct {
 }
 
 func (vc *VC) clauseTerm(fi *FuncInfo, cl *Clause, env map[string]Val, res map[string]Val, st, old *State) Term {
+	return vc.clauseVal(fi, cl, env, res, st, old).t
+}
+
+func (vc *VC) clauseVal(fi *FuncInfo, cl *Clause, env map[string]Val, res map[string]Val, st, old *State) Val {
 	ce, err := vc.P.checkClause(fi, cl)
 	if err != nil {
 		panic(unsupported{err.Error()})
@@ -49,8 +53,7 @@ func (vc *VC) clauseTerm(fi *FuncInfo, cl *Clause, env map[string]Val, res map[s
 		m[k] = v
 	}
 	ex := &exprTr{vc: vc, info: ce.info, env: []map[string]Val{m}, st: st, old: old, fi: fi, structEq: cl.NameOnly}
-	v := ex.tr(ce.expr)
-	return v.t
+	return ex.tr(ce.expr)
 }
 
 func (ex *exprTr) lookup(name string) (Val, bool) {
@@ -436,6 +439,13 @@ func (ex *exprTr) call(x *ast.CallExpr) Val {
 		}
 		vc.fail("contract: conversion %s -> %s", a.typ, to)
 	}
+	if dn, dargs, ok := ex.detCallee(x); ok {
+		var vs []Val
+		for _, a := range dargs {
+			vs = append(vs, ex.tr(a))
+		}
+		return vc.detApply(dn, vs, rt)
+	}
 	// name of callee
 	fun := x.Fun
 	var targs []types.Type
@@ -549,6 +559,28 @@ func (ex *exprTr) call(x *ast.CallExpr) Val {
 	case "verif_unhex", "verif_hexok":
 		vc.bytesOn()
 		return Val{t: app("bytes."+name[6:], ex.tr(x.Args[0]).t), typ: rt}
+	case "verif_f64bits":
+		return Val{t: app(vc.f64Bits(), ex.tr(x.Args[0]).t), typ: rt}
+	case "verif_f64frombits":
+		vc.f64Bits()
+		return Val{t: app("f64.frombits", ex.tr(x.Args[0]).t), typ: rt}
+	case "verif_offset":
+		// offset(s): index of s[0] in its backing array (ghost; lets invariants relate a re-sliced cursor to the original slice)
+		return Val{t: slOff(ex.tr(x.Args[0]).t), typ: rt}
+	case "verif_entry":
+		// entry(p): the value parameter p had when the function was entered (parameters are assignable)
+		id, ok := x.Args[0].(*ast.Ident)
+		if !ok {
+			vc.fail("contract: entry() needs a parameter name")
+		}
+		if v, ok := ex.lookup("entry$" + id.Name); ok {
+			return v // inside a loop clause the plain name is the loop variable
+		}
+		if v, ok := ex.lookup(id.Name); ok {
+			return v // pre/postconditions (also at call sites): the name is the entry value
+		}
+		vc.fail("contract: entry(%s): not a parameter", id.Name)
+		return Val{}
 	case "verif_same":
 		// identity of values (floats: the very same value, unlike IEEE ==; strings: the same string value)
 		a, b := ex.tr(x.Args[0]), ex.tr(x.Args[1])
